@@ -492,7 +492,7 @@ func Run(opt Options) int {
 			"counterexamples_found": len(cands),
 			"missing_covers":        brokenCovers,
 			"init_poison":           initPoison,
-			"solver":                "z3 -in (incremental, push/pop per path)",
+			"solver":                solverDescription(),
 		},
 		"assumptions": []string{
 			"github.com/arr-ai/frozen is replaced by a list-based model (models/frozen): claims are about arr.ai code given a correct finite set/map under the Equal it is handed",
